@@ -385,6 +385,10 @@ theorem evalUpdate_disk {db db' : Engine.DB} {table : Bytes} {sets : List (Bytes
   · have hnocol : ∀ p ∈ sets, ∀ c, p.2 ≠ .col c := fun p hp c hpc => hcol ⟨p, hp, c, hpc⟩
     rw [evalUpdate_nocol db table sets w hnocol] at h
     refine ResDisk.ok (fetchForExec_disk db table _ fun rows fields s hd => ?_) h
+    cases Engine.checkSetColumns fields [] (sets.map (·.1)) with
+    | some ec => exact hd
+    | none =>
+    simp only
     cases Engine.filterIds w fields rows with
     | ok sel => exact evalUpdate_go_disk db table _ _ db.store sel s _ hd
     | err x => exact hd
